@@ -20,6 +20,11 @@ type IndividualNode struct {
 	// (in any family or individual), which is also when they have to be worked
 	// out again.
 	cachedAt *sync.Map
+
+	// cacheMutex protects everything that is cached above. The same
+	// individual is used by several goroutines when individuals are compared
+	// with Jobs > 1.
+	cacheMutex sync.Mutex
 }
 
 // SpouseChildren connects a single spouse to a set of children. The children
@@ -35,7 +40,7 @@ type SpouseChildren map[*IndividualNode]ChildNodes
 func newIndividualNode(document *Document, pointer string, children ...Node) *IndividualNode {
 	return &IndividualNode{
 		newSimpleDocumentNode(document, TagIndividual, "", pointer, children...),
-		false, false, nil, nil, nil, nil,
+		false, false, nil, nil, nil, nil, sync.Mutex{},
 	}
 }
 
@@ -98,6 +103,9 @@ func (node *IndividualNode) Spouses() (spouses IndividualNodes) {
 		return nil
 	}
 
+	node.cacheMutex.Lock()
+	defer node.cacheMutex.Unlock()
+
 	node.checkCache()
 
 	if node.cachedSpouses {
@@ -140,6 +148,9 @@ func (node *IndividualNode) Families() (families FamilyNodes) {
 	if node == nil {
 		return nil
 	}
+
+	node.cacheMutex.Lock()
+	defer node.cacheMutex.Unlock()
 
 	node.checkCache()
 
@@ -874,6 +885,9 @@ func (node *IndividualNode) UniqueIDs() (nodes []*UniqueIDNode) {
 // commonly unique identifiers such as the FamilySearch ID or UUID generated by
 // some applications.
 func (node *IndividualNode) UniqueIdentifiers() *StringSet {
+	node.cacheMutex.Lock()
+	defer node.cacheMutex.Unlock()
+
 	node.checkCache()
 
 	if node.cachedUniqueIDs == nil {
